@@ -469,7 +469,7 @@ class Ctx:
         if r == z3.unknown:
             txt = s.to_smt2()
             # same text, fresh z3 process (default tactics; independent of the history of this process' context)
-            if run_z3_fresh(txt, min(ex.timeout_ms, 10000)) == 'unsat':
+            if run_z3_fresh(txt, min(ex.timeout_ms, 3000)) == 'unsat':
                 ob.time_s = time.time() - t0
                 ob.backend = 'z3-fresh'
                 ob.status = 'discharged'
@@ -492,10 +492,13 @@ class Ctx:
                     ex.solver_s += ob.time_s
                     return ob
             elif ex.timeout_ms > Z3_FIRST_MS:
-                # z3 on the same text in a FRESH context first (the verdict of the in-process solver depends on the history of the
-                # context: names, term order -- the text alone is decided in a fraction of a second), then the in-process solver again
-                s.set('timeout', ex.timeout_ms)
-                r = s.check()
+                # fresh z3 process with the full budget, then the in-process solver with the full budget
+                if run_z3_fresh(txt, ex.timeout_ms) == 'unsat':
+                    r = z3.unsat
+                    ob.backend = 'z3-fresh'
+                else:
+                    s.set('timeout', ex.timeout_ms)
+                    r = s.check()
                 ob.time_s = time.time() - t0
         ex.solver_s += ob.time_s
         if r == z3.unsat:
